@@ -56,7 +56,12 @@ func (fv *FunctionValidator) extractFunctionCalls(expression string) []FunctionC
 	funcPattern := regexp.MustCompile(`([a-zA-Z_][a-zA-Z0-9_]*)\s*\(`)
 	matches := funcPattern.FindAllStringSubmatchIndex(expression, -1)
 
+	inLiteral := quotedSpans(expression)
 	for _, match := range matches {
+		// Text of the form name( inside a string literal is data, not a call.
+		if inLiteral(match[2]) {
+			continue
+		}
 		// match[0] is the start position of entire match
 		// match[1] is the end position of entire match
 		// match[2] is the start position of first capture group (function name)
@@ -102,4 +107,35 @@ func (fv *FunctionValidator) isKeyword(word string) bool {
 		}
 	}
 	return false
+}
+
+// quotedSpans reports whether a byte offset of s lies inside a single- or double-quoted
+// string literal (the lexer has no escape sequences: a literal ends at the next same quote).
+func quotedSpans(s string) func(int) bool {
+	type span struct{ from, to int }
+	var spans []span
+	var quote byte
+	start := 0
+	for i := 0; i < len(s); i++ {
+		c := s[i]
+		if quote != 0 {
+			if c == quote {
+				spans = append(spans, span{start, i})
+				quote = 0
+			}
+			continue
+		}
+		if c == '\'' || c == '"' {
+			quote = c
+			start = i
+		}
+	}
+	return func(pos int) bool {
+		for _, sp := range spans {
+			if pos > sp.from && pos < sp.to {
+				return true
+			}
+		}
+		return false
+	}
 }
